@@ -49,9 +49,9 @@ def strategy_(draw, tier):
   recipe = draw(dags.dag(
       max_nodes=12, min_nodes=4,
       kinds=['B', 'B', 'list', 'tuple', 'dict', 'ddict', 'nt', 'box', 'Bpos', 'ltuple', 'ntuple', 'mdict'],
-      fns=['things:f2', 'things:h1', 'things:Base'], bts=('Config', 'Partial'),
+      fns=['things:f2', 'things:h1', 'things:Base', 'things:kwf'], bts=('Config', 'Partial'),
       root_kinds=['B', 'list', 'tuple', 'dict', 'nt', 'box', 'Bpos'], p_alias=0.85, tags=True))
-  return {'recipe': recipe}
+  return {'recipe': recipe, 'chain': draw(st.sampled_from([0, 0, 1, 2, 3]))}
 
 
 def strategy(tier):
@@ -330,7 +330,85 @@ def check(case):
   # 7. all-paths query with allow_caching=False after the structure gained a reference (mutates root)
   if not has_box:
     _check_growth(root, ref, out)
+    if not out.findings and case.get('chain'):
+      _check_registry_chain(root, case['chain'], out)
+    if not out.findings:
+      _check_kwargs_reorder(root, out)
   return out
+
+
+def _check_registry_chain(root, depth, out):
+  """A chain of `depth` registries without registrations of their own, each falling back to the
+  next and the last to the default registry, must traverse exactly like the default registry."""
+  out.cls('registry_chain')
+  reg = True
+  for _ in range(depth):
+    reg = daglish.NodeTraverserRegistry(use_fallback=reg)
+  ref = list(ref_walk(root))
+  exp_c = collections.Counter(_pk(p) for p, _ in ref)
+  try:
+    got_c = collections.Counter(_pk(norm_path(p)) for _, p in daglish.iterate(root, memoized=False, registry=reg))
+  except Exception as e:  # pylint: disable=broad-except
+    out.add('registry-chain-raises', exc_kind(e), fiddle_frame(e), f'depth{depth}', repr(e)[:300])
+    return
+  if got_c != exp_c:
+    out.add('registry-chain-paths-differ', 'mismatch', '', f'depth{depth}:iterate',
+            f'{sum(got_c.values())} paths instead of {sum(exp_c.values())}')
+    return
+  by_id = collections.defaultdict(list)
+  for p, v in ref:
+    if _memoizable_doc(v):
+      by_id[id(v)].append(p)
+  res = daglish.collect_paths_by_id(root, memoizable_only=True, registry=reg)
+  for i, ps in by_id.items():
+    if sorted(_pk(p) for p in ps) != sorted(_pk(norm_path(p)) for p in res.get(i, [])):
+      out.add('registry-chain-paths-differ', 'mismatch', '', f'depth{depth}:collect_paths_by_id', '')
+      return
+  fn = lambda v, s: s.map_children(v)
+  rebuilt = fn(root, daglish.MemoizedTraversal(traversal_fn=fn, root_obj=root, registry=reg).initial_state())
+  if C.canon(rebuilt) != C.canon(root):
+    out.add('registry-chain-paths-differ', 'mismatch', '', f'depth{depth}:identity-rebuild', '')
+
+
+def _check_kwargs_reorder(root, out):
+  """After the structure was traversed, a **kwargs argument is deleted and set again (same key
+  set, different insertion order); paths reported afterwards must still lead to their values."""
+  cands = []
+  for _, v in ref_walk(root):
+    if isinstance(v, fdl.Buildable):
+      extra = [k for k in v.__arguments__ if isinstance(k, str) and k not in v.__signature_info__.parameters]
+      if len(extra) >= 2 and not any(v is c for c in cands):
+        cands.append(v)
+  if not cands:
+    return
+  out.cls('kwargs_reorder')
+  for b in cands:
+    extra = [k for k in b.__arguments__ if isinstance(k, str) and k not in b.__signature_info__.parameters]
+    val = b.__arguments__[extra[0]]
+    delattr(b, extra[0])
+    setattr(b, extra[0], val)
+  ref2 = list(ref_walk(root))
+  ref2_by_path = {_pk(p): v for p, v in ref2}
+  for memo in (False, True):
+    for v, p in daglish.iterate(root, memoized=memo):
+      np_ = norm_path(p)
+      r = ref2_by_path.get(_pk(np_), _MISSING)
+      if r is _MISSING or (r is not v and not isinstance(r, _Wrapper)):
+        out.add('path-wrong-after-kwargs-reorder', 'mismatch', '', 'iterate' + (':memo' if memo else ''),
+                f'{np_}: yielded {v!r}, there is {r!r}'[:500])
+        return
+      if daglish.follow_path(root, p) is not v:
+        out.add('path-wrong-after-kwargs-reorder', 'mismatch', '', 'follow_path', f'{np_}')
+        return
+  by_id2 = collections.defaultdict(list)
+  for p, v in ref2:
+    if _memoizable_doc(v):
+      by_id2[id(v)].append(p)
+  res = daglish.collect_paths_by_id(root, memoizable_only=True)
+  for i, ps in by_id2.items():
+    if sorted(_pk(p) for p in ps) != sorted(_pk(norm_path(p)) for p in res.get(i, [])):
+      out.add('path-wrong-after-kwargs-reorder', 'mismatch', '', 'collect_paths_by_id', '')
+      return
 
 
 _MISSING = object()
